@@ -6,6 +6,7 @@ import MpireModel.Model.Progress
 import MpireModel.Model.Exception
 import MpireModel.Model.History
 import MpireModel.Model.ApplyHandover
+import MpireModel.Model.KillSignal
 import MpireModel.Drive.Util
 /- Line protocol for the small models. -/
 namespace Mpire.Drive
@@ -191,6 +192,21 @@ def handleHist (fs : List (String × String)) : Option String := do
   let ops ← if os == "-" || os == "" then some [] else (os.splitOn ";").mapM parseHOp
   let states := (ops.foldl (fun (acc : Ctl × List String) op => let s := step acc.1 op; (s, acc.2 ++ [showCtl s])) ({}, [])).2
   some ("ok " ++ "/".intercalate states)
+
+/-! kill-signal hand-shake -/
+open Mpire.Kill in
+/-- `kill ev=<n|r|c|k|d,…>` (enter, funcReturns, clear, tryKill, deliver) for one worker instance -/
+def handleKill (fs : List (String × String)) : Option String := do
+  let es := (← get fs "ev")
+  let evs ← if es == "-" || es == "" then some [] else (es.splitOn ",").mapM fun t => match t with
+    | "n" => some Ev.enter | "r" => some Ev.funcReturns | "c" => some Ev.clear | "k" => some Ev.tryKill | "d" => some Ev.deliver
+    | _ => none
+  let rec go (w : W) (k : Nat) : List Ev → String
+    | [] => s!"ok phase={match w.phase with | .outside => "outside" | .inside => "inside" | .leaving => "leaving" | .stopped => "stopped" | .escaped => "escaped"} sent={w.sent} pending={if w.pending then 1 else 0}"
+    | e :: rest => match step w e with
+      | some w' => go w' (k + 1) rest
+      | none => s!"reject k={k}"
+  some (go {} 0 evs)
 
 /-! apply hand-over -/
 open Mpire.Handover in
